@@ -1237,9 +1237,14 @@ func countMode(tier string) {
 		}
 		cases++
 		splits += per[key]
+		k := d.Real.Kind
+		if k == "merged" {
+			k = fmt.Sprintf("merged%d", len(d.Real.Cuts))
+		}
+		per["cases "+k]++
 		return true
 	})
-	fmt.Println("cases", cases, "splits", splits)
+	fmt.Println("cases", cases, "splits", splits, per)
 }
 
 func main() {
